@@ -503,3 +503,80 @@ def u_r10_tables_indexed_by_tag(schema: Schema, rep: Report):
             rep.check("U-R10", f"{ci.name}.{nm}:{tbl}[<tag>]", guarded, f"{text(x)[:50]} is evaluated for children whose tag is not a key of {tbl} (no `in {tbl}` test, no KeyError handler around it): an unknown or vendor element with such a tag raises KeyError out of the conversion instead of being skipped" if not guarded else "", f"{ci.mod.relpath}:{x.lineno}")
     if n == 0:
         rep.check("U-R10", "groom:no-table-indexed-by-tag", True, f"{len(fns)} functions", "")
+
+
+_SHRINK_GROW = ("remove", "append", "insert", "extend", "pop", "clear")
+
+
+def _groom_modules(schema: Schema):
+    mods = [BASE]
+    for ci, _nm, _fn in groom_overrides(schema):
+        if ci.module not in mods:
+            mods.append(ci.module)
+    return mods
+
+
+def u_r11_no_edit_of_the_sequence_being_iterated(schema: Schema, rep: Report):
+    """removing a child while iterating over its parent skips the next one"""
+    rep.rule("U-R11", "no loop of the model machinery (models.base and the modules that override groom/ungroom) adds to or removes from the very sequence it iterates: `for child in elem: ... elem.remove(child)` shifts the remaining children down and the iterator steps over the one that followed - the element after a dropped vendor tag is never looked at (not renamed, not dropped), so what the model holds depends on which unknown tags the document happens to carry; iterate over a snapshot (set(elem) / list(elem) / elem[:])")
+    p = schema.p
+    n = 0
+    for modname in _groom_modules(schema):
+        m = p.module(modname)
+        for qn, cls, fn in m.functions():
+            for lp in ast.walk(fn):
+                if not isinstance(lp, (ast.For, ast.comprehension)):
+                    continue
+                it = lp.iter
+                # iter(x) / reversed... : a view of the same sequence; list(x)/set(x)/tuple(x)/x[:]/sorted(x)/copy: snapshots
+                while isinstance(it, ast.Call) and text(it.func) in ("iter", "enumerate", "reversed") and it.args:
+                    it = it.args[0]
+                if not isinstance(it, (ast.Name, ast.Attribute)):
+                    continue
+                seq = text(it)
+                n += 1
+                body = lp.body + lp.orelse if isinstance(lp, ast.For) else []
+                for st in body:
+                    for c in ast.walk(st):
+                        hit = None
+                        if isinstance(c, ast.Call) and isinstance(c.func, ast.Attribute) and c.func.attr in _SHRINK_GROW and text(c.func.value) == seq:
+                            hit = f"{seq}.{c.func.attr}(...)"
+                        if isinstance(c, ast.Delete) and any(isinstance(t, ast.Subscript) and text(t.value) == seq for t in c.targets):
+                            hit = f"del {seq}[...]"
+                        if hit:
+                            # leaving the loop right after the edit is safe
+                            rep.check("U-R11", f"{qn}:for-{seq}:{hit}", False, f"{qn} iterates `{seq}` and calls {hit} inside the loop: the iterator's position no longer matches the sequence, so the child that follows an edited one is skipped (e.g. <YIELD> after a removed <INTU.X> is never renamed / a second vendor tag in a row survives)", f"{m.relpath}:{c.lineno}")
+    rep.unit("loops_over_a_plain_sequence", n)
+    rep.check("U-R11", "model-machinery:no-edit-while-iterating", True, "", f"{n} loops over a name / attribute in {', '.join(_groom_modules(schema))}")
+
+
+def u_r12_unknown_tag_text_never_unpacked(schema: Schema, rep: Report):
+    """a tag name is arbitrary text: splitting it yields any number of pieces"""
+    rep.rule("U-R12", "the model machinery (models.base and the modules that override groom/ungroom) never unpacks the pieces of a split text into a fixed number of names without bounding the split: `a, b = tag.split('.')` raises ValueError for a tag with two periods (<INTU.ACCT.NICK>), `tag.split('.')[1]` raises IndexError for one without - an unknown / vendor tag of an unexpected shape then aborts the conversion of the whole document instead of being skipped")
+    p = schema.p
+    n = 0
+    for modname in _groom_modules(schema):
+        m = p.module(modname)
+        for qn, cls, fn in m.functions():
+            for st in ast.walk(fn):
+                if not (isinstance(st, ast.Assign) and len(st.targets) == 1 and isinstance(st.targets[0], (ast.Tuple, ast.List))):
+                    continue
+                v = st.value
+                if not (isinstance(v, ast.Call) and isinstance(v.func, ast.Attribute) and v.func.attr in ("split", "rsplit")):
+                    continue
+                n += 1
+                tg = st.targets[0]
+                if any(isinstance(e, ast.Starred) for e in tg.elts):
+                    continue
+                k = len(tg.elts)
+                maxsplit = None
+                if len(v.args) >= 2 and isinstance(v.args[1], ast.Constant):
+                    maxsplit = v.args[1].value
+                for kw in v.keywords:
+                    if kw.arg == "maxsplit" and isinstance(kw.value, ast.Constant):
+                        maxsplit = kw.value.value
+                # with maxsplit = k-1 the count can still be smaller; only a guard can settle that - the unbounded form is certain to over-run
+                ok = maxsplit == k - 1
+                rep.check("U-R12", f"{qn}:unpacks:{text(v)[:30]}", ok, f"{qn} unpacks {text(v)} into {k} names without maxsplit={k - 1}: a text with more separators (a vendor tag such as <INTU.ACCT.NICKNAME>) raises ValueError out of the conversion" if not ok else "", f"{m.relpath}:{st.lineno}")
+    rep.unit("split_unpackings", n)
+    rep.check("U-R12", "model-machinery:no-unbounded-split-unpacked", True, "", f"{n} tuple-unpackings of a split in {', '.join(_groom_modules(schema))}")
